@@ -40,7 +40,7 @@ class StmtMixin(CallMixin):
         yield from m(node, st)
 
     def check_crash_inv(self, st, node, flow):
-        if not self.contract.crash_inv or self.discovering:
+        if not self.contract.crash_inv or self.discovering or getattr(self, "inlining", 0):
             return
         facts = []
         for text in self.contract.crash_inv:
